@@ -120,6 +120,33 @@ SCHEMAS = {
         'assocs': [A('R1', 'Table', ['From'], 'MC', 'M', ['To'], '1', sphrase='create', tphrase='insert into')],
         'uniques': {'M': [U('Unique', 'To')], 'Table': [U('On', 'Index'), U('Rop', 'Values', 'Phrase')]},
     },
+    # two associations to one class over the same two-attribute key, listed in different orders;
+    # identifier values of one type that may be permuted
+    'grid': {
+        'classes': ['P', 'C1', 'C2'],
+        'attrs': {'P': [at('A', 'INTEGER'), at('B', 'INTEGER')],
+                  'C1': [at('Id', ID), at('PA', 'INTEGER'), at('PB', 'INTEGER')],
+                  'C2': [at('Id', ID), at('PA', 'INTEGER'), at('PB', 'INTEGER')]},
+        'assocs': [A('R1', 'C1', ['PA', 'PB'], 'MC', 'P', ['A', 'B'], '1C'),
+                   A('R2', 'C2', ['PB', 'PA'], 'MC', 'P', ['B', 'A'], '1C')],
+        'uniques': {'P': [U('I1', 'A', 'B')], 'C1': [U('I1', 'Id')], 'C2': [U('I1', 'Id')]},
+    },
+    # phrases on one end only of a non-reflexive association
+    'phrase_ends': {
+        'classes': ['P', 'D'],
+        'attrs': {'P': [at('Id', ID)], 'D': [at('Id', ID), at('O_Id', ID), at('W_Id', ID)]},
+        'assocs': [A('R1', 'D', ['O_Id'], 'MC', 'P', ['Id'], '1C', tphrase='is owned by'),
+                   A('R2', 'D', ['W_Id'], 'MC', 'P', ['Id'], '1C', sphrase='walks')],
+        'uniques': {'P': [U('I1', 'Id')], 'D': [U('I1', 'Id')]},
+    },
+    # homonymous attributes declared in different letter case by different classes
+    'mixed_case': {
+        'classes': ['Person', 'Pet'],
+        'attrs': {'Person': [at('Id', ID), at('Name', 'STRING'), at('age', 'INTEGER')],
+                  'Pet': [at('id', ID), at('name', 'STRING'), at('Age', 'INTEGER'), at('owner_id', ID)]},
+        'assocs': [A('R1', 'Pet', ['owner_id'], 'MC', 'Person', ['Id'], '1C')],
+        'uniques': {'Person': [U('I1', 'Id')], 'Pet': [U('I1', 'id')]},
+    },
     'reals': {
         'classes': ['M'],
         'attrs': {'M': [at('id', ID), at('x', 'REAL'), at('ok', 'BOOLEAN'), at('n', 'INTEGER')]},
